@@ -36,7 +36,7 @@ def to_py(v):
         return v
     if isinstance(v, float):
         if v != v or v in (float('inf'), float('-inf')):
-            return {'obj': [repr(v)]}
+            return {'obj': [repr(v), 'float', 'Number']}      # a float (so a Number) that no range contains
         return {'f': frac_to_str(Fraction(v))}
     if isinstance(v, list):
         return {'list': [to_py(x) for x in v]}
@@ -53,7 +53,7 @@ def same_value(a, b):
 
 
 POOL = [None, True, False, 0, 1, -1, 2, 5, 100, 1.5, -0.5, 0.0, 0.5, '', 'abc', 'err', 'msg', 'type', 'shape', 'proportional', 'upper', 'lower', 'symmetric', 'diagonal', 'hermitian', '5%',
-        [], ['a'], ['a', 'b'], [1], [1, 2], [None], [None, None], [2, 2], [1, 3], (), ('a',), (1, 2), (2, 2), {}, {'a': 1}, {'start': 1, 'stop': 2}, 3 + 4j, Junk()]
+        [], ['a'], ['a', 'b'], [1], [1, 2], [None], [None, None], [2, 2], [1, 3], (), ('a',), (1, 2), (2, 2), {}, {'a': 1}, {'start': 1, 'stop': 2}, 3 + 4j, Junk(), float('nan')]
 
 
 def option_table(obj):
@@ -89,7 +89,7 @@ def part_options(ctx):
             lits = re.findall(r'\.lit \(\.str "([^"]*)"\)', stext)
             pool = POOL + lits + [x + 'x' for x in lits[:1]]
             if ctx.quick:
-                pool = rng.sample(POOL, 14) + lits + [None, True, 0, 1, -1, 1.5, 'abc', [], ()]
+                pool = rng.sample(POOL, 14) + lits + [None, True, 0, 1, -1, 1.5, 'abc', [], (), float('nan')]
             for v in pool:
                 cases.append({opt: v})
         cases += [{'no_such_option': 1}, {'Debug': True}, {}]
@@ -108,6 +108,9 @@ def part_options(ctx):
                 ctx.known('K6', 'MatrixGrader(identity_dim=True) raises TypeError')
             elif ck == 'err' and cv[1] not in ('ConfigError', 'Error') and not cv[1].endswith('Invalid'):
                 ctx.violation('constructor raised %s instead of a configuration/validation error' % cv[1], case, impl=cv)
+            for o_, v_ in extra.items():
+                if isinstance(v_, float) and v_ != v_ and ck == 'out' and '.range' in dict(clean).get(o_, '') and '.any' not in dict(clean).get(o_, ''):
+                    ctx.violation('NaN (which lies in no range) was accepted for the range-restricted option %s' % o_, case, impl='constructed')
             if k == 'err' and ck == 'out':
                 ctx.violation('constructor accepted a configuration its schema rejects', case, impl='constructed')
             ctx.case(dict(case, accepted=(k == 'out')), nontrivial_key=(name, repr(sorted(case['config'].items()))) if k == 'err' or len(extra) != 1 else None, kind='options:%s' % ('accepted' if k == 'out' else 'rejected'))
@@ -214,6 +217,32 @@ def part_equiv(ctx):
         ctx.case(case, nontrivial_key=('equiv', name, repr(sorted(case['config'].items()))), kind='equiv')
 
 
+def part_registered(ctx):
+    """registered defaults: the most specific class wins, an explicit option wins over both, clearing restores the documented default"""
+    import mitxgraders as M
+    from mitxgraders.baseclasses import AbstractGrader, ItemGrader
+    saved = [(c, c.default_values) for c in (AbstractGrader, ItemGrader, M.StringGrader, M.FormulaGrader)]
+    try:
+        AbstractGrader.register_defaults({'debug': True, 'attempt_based_credit_msg': False})
+        ItemGrader.register_defaults({'wrong_msg': 'item-level'})
+        M.StringGrader.register_defaults({'debug': False, 'wrong_msg': 'string-level', 'strip': False})
+        g = M.StringGrader(answers='a')
+        f = M.FormulaGrader(answers='1')
+        want = [(g.config['debug'], False), (g.config['wrong_msg'], 'string-level'), (g.config['strip'], False), (g.config['attempt_based_credit_msg'], False),
+                (f.config['debug'], True), (f.config['wrong_msg'], 'item-level'), (M.StringGrader(answers='a', debug=True).config['debug'], True),
+                (M.StringGrader({'answers': 'a', 'wrong_msg': 'explicit'}).config['wrong_msg'], 'explicit')]
+        bad = [(a, b) for a, b in want if a != b]
+        if bad:
+            ctx.violation('registered defaults are not applied most-specific-class-last with explicit options on top', {'part': 'registered-defaults'}, impl=repr(bad))
+    finally:
+        for c, v in saved:
+            c.default_values = v
+    g = M.StringGrader(answers='a')
+    if g.config['debug'] is not False or g.config['wrong_msg'] != '' or g.config['strip'] is not True:
+        ctx.violation('documented defaults are not restored after clearing registered defaults', {'part': 'registered-defaults'}, impl=repr({k: g.config[k] for k in ('debug', 'wrong_msg', 'strip')}))
+    ctx.case({'registered-defaults': True}, nontrivial_key='registered', kind='registered-defaults')
+
+
 def part_cross(ctx):
     import mitxgraders as M
     from mitxgraders.helpers.calc.specify_domain import SpecifyDomain
@@ -307,6 +336,7 @@ def run(ctx):
     part_objects(ctx)
     part_cross(ctx)
     part_equiv(ctx)
+    part_registered(ctx)
 
 
 def search(ctx):
